@@ -414,3 +414,184 @@ func pathTo(root ast.Node, target ast.Node) []ast.Node {
 	})
 	return found
 }
+
+// LiftedSite is an API effect site seen from a function: the site itself when it sits in
+// the function's own body, or a site inside a helper that the engine expands into the
+// function, together with the call in the function's own body that leads to it.
+type LiftedSite struct {
+	*eff.Site
+	Top    *ast.CallExpr // call in the function's own body (== Site.Call when direct)
+	Helper *load.FuncInfo // nil when direct
+}
+
+// sitesOf lists the effect sites of fi including those of expanded helpers (up to two levels).
+func (c *Ctx) sitesOf(fi *load.FuncInfo) []LiftedSite { return c.sitesUnder(fi, nil) }
+
+// sitesUnder restricts sitesOf to a function literal of fi (nil: the whole function, literals included).
+func (c *Ctx) sitesUnder(fi *load.FuncInfo, lit *ast.FuncLit) []LiftedSite {
+	var out []LiftedSite
+	for _, s := range c.G.Sites {
+		if s.Fn == fi.Obj && (lit == nil || s.InLit == lit) {
+			out = append(out, LiftedSite{Site: s, Top: s.Call})
+		}
+	}
+	info := fi.Pkg.TypesInfo
+	var body ast.Node = fi.Decl.Body
+	if lit != nil {
+		body = lit.Body
+	}
+	for _, call := range callsIn(body, true) {
+		h := gf.StaticCallee(info, call)
+		if h == nil || h == fi.Obj {
+			continue
+		}
+		if ok, _, _ := c.E.InlineDecision(h); !ok {
+			continue
+		}
+		hfi := c.P.FuncInfoOf(h)
+		if hfi == nil || hfi.Pkg != fi.Pkg || !c.liftedAway(hfi) {
+			continue
+		}
+		for _, s := range c.G.Sites {
+			if s.Fn == h.Origin() {
+				out = append(out, LiftedSite{Site: s, Top: call, Helper: hfi})
+			}
+		}
+		// second level
+		for _, call2 := range callsIn(hfi.Decl.Body, true) {
+			h2 := gf.StaticCallee(info, call2)
+			if h2 == nil || h2 == h || h2 == fi.Obj {
+				continue
+			}
+			if ok, _, _ := c.E.InlineDecision(h2); !ok {
+				continue
+			}
+			h2fi := c.P.FuncInfoOf(h2)
+			if h2fi == nil || h2fi.Pkg != fi.Pkg || !c.liftedAway(h2fi) {
+				continue
+			}
+			for _, s := range c.G.Sites {
+				if s.Fn == h2.Origin() {
+					out = append(out, LiftedSite{Site: s, Top: call, Helper: h2fi})
+				}
+			}
+		}
+	}
+	return out
+}
+
+// resultIndexOf: the helper returns the value that site's call assigns (result position `of` of the
+// site's call) as its result number k on every return that does not return a nil/zero there; -1 if not.
+func (c *Ctx) resultIndexOf(h *load.FuncInfo, site *ast.CallExpr, of int) int {
+	info := h.Pkg.TypesInfo
+	// the variable the site's result is bound to, or the site being returned directly
+	var v types.Object
+	direct := -1
+	ast.Inspect(h.Decl.Body, func(n ast.Node) bool {
+		switch x := n.(type) {
+		case *ast.AssignStmt:
+			if len(x.Rhs) == 1 && ast.Unparen(x.Rhs[0]) == ast.Expr(site) && of < len(x.Lhs) {
+				if id, ok := x.Lhs[of].(*ast.Ident); ok {
+					v = info.ObjectOf(id)
+				}
+			}
+		case *ast.ReturnStmt:
+			if len(x.Results) == 1 && ast.Unparen(x.Results[0]) == ast.Expr(site) {
+				direct = of // `return site(...)`: results map one to one
+			}
+		}
+		return true
+	})
+	if direct >= 0 {
+		return direct
+	}
+	if v == nil {
+		return -1
+	}
+	k := -1
+	ok := true
+	ast.Inspect(h.Decl.Body, func(n ast.Node) bool {
+		if _, isLit := n.(*ast.FuncLit); isLit {
+			return false
+		}
+		ret, isRet := n.(*ast.ReturnStmt)
+		if !isRet {
+			return true
+		}
+		found := false
+		for i, r := range ret.Results {
+			if id, isID := ast.Unparen(r).(*ast.Ident); isID && info.ObjectOf(id) == v {
+				if k >= 0 && k != i {
+					ok = false
+				}
+				k = i
+				found = true
+			}
+		}
+		if !found && k >= 0 && k < len(ret.Results) && !isNilExpr(info, ret.Results[k]) {
+			ok = false
+		}
+		return true
+	})
+	if !ok {
+		return -1
+	}
+	// returns seen before k was known
+	ast.Inspect(h.Decl.Body, func(n ast.Node) bool {
+		if ret, isRet := n.(*ast.ReturnStmt); isRet && k >= 0 && k < len(ret.Results) {
+			r := ast.Unparen(ret.Results[k])
+			if id, isID := r.(*ast.Ident); isID && info.ObjectOf(id) == v {
+				return true
+			}
+			if !isNilExpr(info, r) {
+				ok = false
+			}
+		}
+		return true
+	})
+	if !ok {
+		return -1
+	}
+	return k
+}
+
+// liftedAway: fi is a helper the engine expands into its callers and every use of it is a
+// static call from its own package; rules that attribute effect sites to the calling
+// function then look at the callers, not at the helper.
+func (c *Ctx) liftedAway(fi *load.FuncInfo) bool {
+	if v, ok := liftedCache[c][fi]; ok {
+		return v
+	}
+	v := c.liftedAway0(fi)
+	if liftedCache[c] == nil {
+		liftedCache[c] = map[*load.FuncInfo]bool{}
+	}
+	liftedCache[c][fi] = v
+	return v
+}
+
+var liftedCache = map[*Ctx]map[*load.FuncInfo]bool{}
+
+func (c *Ctx) liftedAway0(fi *load.FuncInfo) bool {
+	if ok, _, _ := c.E.InlineDecision(fi.Obj); !ok {
+		return false
+	}
+	if fi.Obj.Exported() {
+		return false
+	}
+	n := 0
+	for _, g := range c.P.Funcs() {
+		if g == fi {
+			continue
+		}
+		for _, call := range callsIn(g.Decl.Body, true) {
+			if f := gf.StaticCallee(g.Pkg.TypesInfo, call); f != nil && f.Origin() == fi.Obj {
+				if g.Pkg != fi.Pkg {
+					return false
+				}
+				n++
+			}
+		}
+	}
+	return n > 0
+}
